@@ -579,6 +579,7 @@ func gapLiterals(c *core.Ctx) []gapLit {
 
 func C11(c *core.Ctx) {
 	c.Explanation("C11: agreement by construction plus agreement on a bounded family: the SAM-path worker getVariantsSam (text rows, encoded in the worker) and the FASTA-path worker getVariants (encoded record, offsets from GetMSAOffsets as variants.Variants computes them) are interpreted on the same gapped pairs and annotations as C04/C05 and must emit identical mutation lists, names and indices; both paths call GetVariantsPair; sam variants obtains its rows from the function toPairAlign writes from (blockToPairwiseAlignment with insertions kept); both entry points hand results to the same two writers.")
+	checkCigarTables(c, "R7", func(t cigarTable) bool { return true }) // the toMultiAlign row and the toPairAlign pair come from tables that agree with the SAM specification
 	checkReferenceRecordName(c, "R6")
 	c15TrimAlignment(c) // the pair toPairAlign writes is the pair sam variants reads: no cut without a window
 	ev0 := newEval(c)
